@@ -31,7 +31,10 @@ func RegisterAfterFunc(isDone func() bool, f func()) (stop func() bool) {
 	a := &afterFunc{isDone: isDone, f: f}
 	RaceReleaseMerge(unsafe.Pointer(&a.hb))
 	s.afterFuncs = append(s.afterFuncs, a)
-	if isDone() {
+	s.noPoint++
+	done := isDone()
+	s.noPoint--
+	if done {
 		a.start()
 	}
 	return func() bool {
@@ -51,6 +54,10 @@ func AfterCancel() {
 	if s == nil || s.aborting {
 		return
 	}
+	// isDone polls a context (Err), which is a scheduling point in program code; here it is the
+	// scheduler's own bookkeeping and must not yield: another thread registering or cancelling meanwhile
+	// would change the list under the loop (two workers leaving exec at once did)
+	s.noPoint++
 	k := 0
 	for _, a := range s.afterFuncs {
 		if a.stopped || a.started {
@@ -64,4 +71,5 @@ func AfterCancel() {
 		k++
 	}
 	s.afterFuncs = s.afterFuncs[:k]
+	s.noPoint--
 }
